@@ -433,6 +433,11 @@ Definition tables_ok : bool :=
   slist_eqb native_cap_check_order ["Denied"; "AllowedEmpty"; "Allowed"] &&
   slist_eqb dynamic_check_order ["Caps"; "Checksum"; "Load"; "Version"] &&
   slist_eqb embedded_check_order ["Caps"; "Checksum"; "Load"; "Version"] &&
+  (* every policy component (capabilities, checksum, required_version) is looked up under one and the same key,
+     and that key is the last segment of the import path (native_module_decision takes ONE policy) *)
+  (match dynamic_policy_lookup_keys with k :: r => forallb (String.eqb k) r && negb (match r with [] => true | _ => false end) | [] => false end) &&
+  (match embedded_policy_lookup_keys with k :: r => forallb (String.eqb k) r | [] => false end) &&
+  dynamic_policy_key_is_last_segment &&
   empty_capability_list_skips_check && source_route_uses_project_manifest &&
   aasm_route_uses_project_manifest && avbc_route_falls_back_to_project_manifest &&
   (* every native of std.fs / std.net re-checks its capability per call *)
